@@ -4,7 +4,7 @@
  *   R <S|F> <start> <show|print> <item>...    write the items at position <start> of a String / of a File, read them back
  *       item ::= s=<hex>   String shown with show_to / "%$"       i=<dec>  Int with show_to / "%$"     f=<16 hex> Float (bits)
  *                li=<dec> | ld=<dec> | lf=<16 hex>                 numeric specifications "%li" "%ld" "%lf"   (print mode only)
- *                t=<hex>   literal separator (no NUL, no '%')      pc       "%%"                         (print mode only)
+ *                t=<hex>   literal separator (no NUL, no '%')      pc       a literal percent, "%%"     (print mode only)
  *                z=<hex>   text appended after the written items that is not read (last item only)
  *       mode show : every value by show_to / look_from, every separator by its own print_to_with / scan_from_with call
  *       mode print: ONE print_to_with and ONE scan_from_with call with the format string built from the items
@@ -12,6 +12,7 @@
  *
  * prints   O R w=<pos after writing> text=<written bytes> r=<pos after reading | exception> vals=<values read> tell=<ftell | ->
  *          O K r=<pos | exception> val=<value> tell=<ftell | ->
+ *          C contract=<0|1>   (after every R observation) is the op inside the property's quantifier, as judged here
  * and X lines when the direct oracle (plain C comparison of what was written with what was read) sees the property violated
  * on an input inside the property's quantifier. */
 #include "common.h"
@@ -205,12 +206,8 @@ static void op_R(int is_file, long start, int print_mode, size_t lineno) {
   /* ---- direct oracle: the property itself */
   {
     int has_pct; int contract = in_contract(is_file, &has_pct);
-    if (has_pct) {
-      /* known finding KF-C15-pct-advance: scan_from_with adds 2 to pos for "%%" although one character was written / consumed */
-      int bad = exc != NULL || rpos != wpos;
-      for (int i = 0; i < nitems && !bad; i++) if (targets[i] && (items[i].kind == I_INT || items[i].kind == I_LI || items[i].kind == I_LD) && c_int(targets[i]) != items[i].iv) bad = 1;
-      if (bad) X("sig=KF-C15-pct-advance line=%zu what=a sequence with a %%%% separator is not read back: wrote to %d, reader %s%d", lineno, wpos, exc ? "raised at " : "returned ", rpos);
-    } else if (contract) {
+    fprintf(vout, "C contract=%d\n", contract); (void)has_pct;   /* cross-checked with the model's `contractOK` (the theorems' hypothesis) */
+    if (contract) {
       if ((size_t)(wpos - start) != tlen) X("sig=C15-write-count line=%zu what=writer returned position %d for %zu characters written at %ld", lineno, wpos, tlen, start);
       if (exc) X("sig=C15-exception line=%zu what=reading back raised %s", lineno, v_exc_name(exc));
       else {
